@@ -102,11 +102,14 @@ structure ResumeOutcome where
 /-- Result: new cache, what was sent in the clear, and on success the negotiation outcome with the
     key the stream is switched to BEFORE any further byte is read or written.
     fix D5: an entry without a key is not resumable. `cache2`: the global fallback cache. -/
-def serverResume (c : Cache) (now : Nat) (sid : Str) (wantReply : Bool) (freshNonce : Nat) :
+def serverResume (c : Cache) (now : Nat) (sid : Str) (wantReply : Bool) (freshNonce : Nat)
+    (requireAuth : Bool := false) :
     Cache × ResumeReply × Option ResumeOutcome :=
   let (c1, found) := c.lookupNonExpired now sid
+  -- fix D18: when the server's policy for the named command REQUIRES authentication
+  -- (`requireAuth`), a session established without it is not resumable either
   let usable := match found with
-    | some e => if e.key.isSome && (e.crypto == "AES" || e.crypto == "AESGCM") then some e else none
+    | some e => if e.key.isSome && (e.crypto == "AES" || e.crypto == "AESGCM") && (!requireAuth || e.authenticated) then some e else none
     | none => none
   match usable with
   | none => (c1, if wantReply then .sidNotFound else .none, none)
@@ -119,14 +122,15 @@ def serverResume (c : Cache) (now : Nat) (sid : Str) (wantReply : Bool) (freshNo
     cache: the own cache is consulted first; only when it has no live entry is the global cache
     (where `storeSession` puts handshake-negotiated sessions) consulted, and then the renewed entry
     goes back into the cache it came from — never into the other one. -/
-def serverResume2 (own glob : Cache) (now : Nat) (sid : Str) (wantReply : Bool) (freshNonce : Nat) :
+def serverResume2 (own glob : Cache) (now : Nat) (sid : Str) (wantReply : Bool) (freshNonce : Nat)
+    (requireAuth : Bool := false) :
     Cache × Cache × ResumeReply × Option ResumeOutcome :=
   match (own.lookupNonExpired now sid).2 with
   | some _ =>
-    let r := serverResume own now sid wantReply freshNonce
+    let r := serverResume own now sid wantReply freshNonce requireAuth
     (r.1, glob, r.2.1, r.2.2)
   | none =>
-    let r := serverResume glob now sid wantReply freshNonce
+    let r := serverResume glob now sid wantReply freshNonce requireAuth
     ((own.lookupNonExpired now sid).1, r.1, r.2.1, r.2.2)
 
 /-! ### client side: `ClientHandshake` over a cache -/
@@ -145,13 +149,15 @@ inductive ClientStep
   deriving Repr, DecidableEq, Inhabited
 
 /-- the lookup-and-resume half of `ClientHandshake` (explicit `SessionID` path aside) -/
-def clientTry (c : Cache) (now : Nat) (tag addr cmd : Str) (answer : ServerAnswer) : Cache × ClientStep :=
+def clientTry (c : Cache) (now : Nat) (tag addr cmd : Str) (answer : ServerAnswer)
+    (requireAuth : Bool := false) : Cache × ClientStep :=
   if addr = [] then (c, .full)
   else match c.lookupByCommand now tag addr cmd with
     | none => (c, .full)
     | some e =>
-      -- only a session that carries an AES key is resumable (fix D5, client side)
-      if !(e.key.isSome && (e.crypto == "AES" || e.crypto == "AESGCM")) then (c, .full)
+      -- only a session that carries an AES key is resumable (fix D5, client side); a client whose
+      -- policy REQUIRES authentication does not ride an unauthenticated session (fix D18)
+      if !(e.key.isSome && (e.crypto == "AES" || e.crypto == "AESGCM") && (!requireAuth || e.authenticated)) then (c, .full)
       else
       match answer with
       | .authorized => ((c.store (e.renew now)), .resumed e.id e.key e.user e.authenticated)
@@ -162,11 +168,13 @@ def clientTry (c : Cache) (now : Nat) (tag addr cmd : Str) (answer : ServerAnswe
 /-- `ClientHandshake` with an explicit `SessionID` (pre-registered / claim sessions): the named
     session is resumed whatever tag, server and command the connection is for; the command map is
     neither consulted nor changed. -/
-def clientById (c : Cache) (now : Nat) (sid : Str) (answer : ServerAnswer) : Cache × ClientStep :=
+def clientById (c : Cache) (now : Nat) (sid : Str) (answer : ServerAnswer)
+    (requireAuth : Bool := false) : Cache × ClientStep :=
   match c.lookupNonExpired now sid with
   | (c1, none) => (c1, .resumeFailed sid)
   | (c1, some e) =>
-    match answer with
+    if requireAuth && !e.authenticated then (c1, .resumeFailed sid)
+    else match answer with
     | .authorized => (c1.store (e.renew now), .resumed e.id e.key e.user e.authenticated)
     | .sidNotFound => (c1.invalidate e.id, .resumeFailed e.id)
     | .broken => (c1.invalidate e.id, .resumeFailed e.id)
